@@ -35,7 +35,7 @@ CHECKS = {
         note='Modelled not verified: the C lexer, CPython re/str (re-expressed, compared each run).',
         design='Part B C04'),
     'C05': dict(
-        text='Theorems over the model of IntrospectablePass.validate (all namespaces): the propagation of non-introspectability is a terminating fixed point; after validate every alias, callable (top-level or nested), typed field, property and field holding an anonymous callback that is left introspectable refers only to leaves that are foreign, an allowed fundamental or a still-introspectable non-skipped node — never unresolved, never varargs (C05_closure, C05_fields_props); no unresolved/varargs/va_list/long long/long double at any depth, skipped values included (C05_exotic, full); transfer, scope and element type stated for values not marked (skip) (C05_bindable); setter/getter and set-/get-property stay in agreement through the property analysis; written closure/destroy/length indices are in range and name the requested parameter or the writer raises. Witness theorems and examples keep the inputs of the repaired defects as regressions. The executable predicate girWellFormed (Lean) is evaluated on every GIR the real pipeline emits in the run (incl. the bare-structure return family and included namespaces with hidden definitions) and on every shipped/expected GIR: that is the failing-input search. No known finding.',
+        text='Theorems over the model of IntrospectablePass.validate (all namespaces): the propagation of non-introspectability is a terminating fixed point; after validate every alias, callable (top-level or nested), typed field, property and field holding an anonymous callback that is left introspectable refers only to leaves that are foreign, an allowed fundamental or a still-introspectable non-skipped node — never unresolved, never varargs (C05_closure, C05_fields_props); no unresolved/varargs/va_list/long long/long double at any depth, skipped values included (C05_exotic, full); transfer, scope and element type stated for values not marked (skip) (C05_bindable); setter/getter and set-/get-property stay in agreement through the property analysis; written closure/destroy/length indices are in range and name the requested parameter or the writer raises. Witness theorems and examples keep the inputs of the repaired defects as regressions. The executable predicate girWellFormed (Lean) is evaluated on every GIR the real pipeline emits in the run (incl. the bare-structure return family and included namespaces with hidden definitions) and on every shipped/expected GIR: that is the failing-input search. One known finding (validated clause, outside the pass model): (rename-to) from a member of a type onto a static function that _pair_static_method copied into that type pairs shadows/shadowed-by across containers (corpus witness rename-to-static-function-of-a-record, reported on every run).',
         note='Modelled not verified: earlier passes establish the AST invariants assumed (agreement on entry is _pair_property_accessors\' job, judged on the real output only); the C lexer. Scope decision: values marked (skip) are exempt from the three "states ..." clauses in the oracle (bindings ignore them; the pass returns early on them by design), counted as oracle:skipex.',
         design='Part B C05'),
     'C06': dict(
